@@ -319,6 +319,12 @@ func (x *Exec) doCall(name string, i int, c APICall) (res APIResult) {
 	return res
 }
 
+// sameLineage: a check group and its actions (thread "P0/Pre" and "P0/Pre/A0") are one line of work for the default
+// schedule: "keep running what ran last" follows it from the group into its actions and back.
+func sameLineage(a, b string) bool {
+	return a == b || (b != "" && strings.HasPrefix(a, b+"/")) || (a != "" && strings.HasPrefix(b, a+"/"))
+}
+
 // enabledOps computes the canonical enabled list for the current quiescent state.
 func (x *Exec) enabledOps(gates []*Gate) (labels []string, runningEnabled, forced bool) {
 	w := x.W
@@ -339,7 +345,7 @@ func (x *Exec) enabledOps(gates []*Gate) (labels []string, runningEnabled, force
 	}
 	last := w.LastThread
 	sort.SliceStable(rel, func(i, j int) bool {
-		li, lj := rel[i].Thread == last, rel[j].Thread == last
+		li, lj := sameLineage(rel[i].Thread, last), sameLineage(rel[j].Thread, last)
 		if li != lj {
 			return li
 		}
@@ -353,7 +359,7 @@ func (x *Exec) enabledOps(gates []*Gate) (labels []string, runningEnabled, force
 	if len(threads) > 1 {
 		x.NonTrivial = true
 	}
-	runningEnabled = len(rel) > 0 && rel[0].Thread == last
+	runningEnabled = len(rel) > 0 && sameLineage(rel[0].Thread, last)
 	tickOK := x.Ticks < x.Sc.maxTicks() && !x.tickDead
 	if len(rel) > 0 {
 		if tickOK && (x.Sc.Time || (x.Sc.TimeoutRace && invParked)) {
@@ -458,7 +464,7 @@ func (x *Exec) run(choose Chooser, mon Monitor, opt ExecOpts) {
 	w := NewWorld(sc)
 	w.Gen = opt.Gen
 	x.W = w
-	w.passthrough = !sc.GateSetup
+	w.driverGoid = goid()
 
 	reg := registry.New()
 	reg.MustRegister(&Plug{w: w, name: PlugAct})
@@ -503,10 +509,6 @@ func (x *Exec) run(choose Chooser, mon Monitor, opt ExecOpts) {
 			}
 		}
 	}
-	w.mu.Lock()
-	w.passthrough = false
-	w.mu.Unlock()
-
 	threads := sc.Threads
 	if len(threads) == 0 {
 		for pi := range sc.Plans {
